@@ -31,7 +31,7 @@ MANIFEST = {
                  "Context/Layouter histories against ShaperSafetyTrace.tla",
 }
 
-FIXED_POOL = [[1], [1, 2], [2, 1], [1, 1, 2], [4, 1, 4, 2], [1, 4, 4, 2]]
+FIXED_POOL = [[1], [1, 2], [2, 1], [1, 2, 1], [4, 1, 4, 2], [1, 4, 4, 2]]
 
 
 def _cfg_live(base):
@@ -127,7 +127,10 @@ def run(ctx):
     def multi_lig(c):
         return c["family"] == "lig" and (c["ll"][0]["flags"] or c["ll"][0]["useSet"] or c["ll"][0]["attach"]) and \
             any(len(v) >= 2 for st in c["ll"][0]["subs"] if st["k"] == "lig" for _, v in st["m"])
-    must = [c for c in others if multi_lig(c)]
+    # nested contextual lookups (scratch buffers and stack entries are recycled between matches and calls):
+    # every (parent format, child format, chained or not) combination, with a nested contextual action followed by an action on the first input glyph
+    nest = [c for c in sc.build(["ctxnest"]) if [a["idx"] for a in c["ll"][0]["subs"][0]["rules"][0]["acts"]] == [2, 0]]
+    must = [c for c in others if multi_lig(c)] + nest
     others = must + [c for c in others if not multi_lig(c)][:ctx.pick(45, 600)]
     rnd = [sc.random_case(rng, 0, 6) for _ in range(ctx.pick(40, 400))]
     cases = []
